@@ -1,5 +1,9 @@
------------------------------- MODULE RaftHost ------------------------------
-(* C05 / C03: what anndb adds around etcd/raft - storage/raft/group.go run():
+--------------------------- MODULE RaftHostPhases ---------------------------
+(* The UNREDUCED transition relation of RaftHost (one action per host phase), without snapshots:
+   kept as the reference the atomic-cycle reduction of RaftHost.tla was derived from (3 nodes: > 300 M
+   states, not used by any check).
+
+   C05 / C03: what anndb adds around etcd/raft - storage/raft/group.go run():
 
      take Ready -> (leader) send -> wal.Save -> apply committed -> (follower) send -> Advance
 
@@ -14,43 +18,33 @@
                  = "allFirst"    : everybody sends first (a mutation that breaks Attested)
    History variables: appliedAt (what was applied at each index, by anyone), leaders,
    bad (the set of observed contract breaches; NoBad == bad = {}).
-   The transition relation NextR takes one atomic host cycle parameterised by the crash
-   point inside it - a sound reduction of the per-phase relation (RaftHostPhases.tla)
-   because other nodes observe a cycle only through the messages it emits.
-   Snapshots: Compact(n) is the local snapshot + compaction of trySnapshot; a leader whose
-   follower needs compacted entries sends a snapshot message; the receiving host saves it,
-   installs it into the state machine and applies the entries after it; Restart loads the
-   durable snapshot and replays the durable log after it. *)
+   Two transition relations: Next (one action per host phase) and NextR (one atomic
+   host cycle parameterised by the crash point inside it - a sound reduction because
+   other nodes observe a cycle only through the messages it emits), see DESIGN.md. *)
 EXTENDS Integers, Sequences, FiniteSets, TLC
 
 CONSTANTS Node, None, Values, MaxTerm, MaxLog, MaxCrash, MaxNet,
           RestartMode,   \* "restart" (RestartNode) or "start" (StartNode on existing log)
-          SendPolicy,    \* "leaderFirst" (code) or "allFirst" (mutation)
-          MaxSnap,       \* bound on local snapshot + compaction steps
-          SnapLabel      \* "exact": a local snapshot is labelled with the last applied index (the code);
-                         \* "plusone": labelled one too high (a mutation that loses an entry on restart)
+          SendPolicy     \* "leaderFirst" (code) or "allFirst" (mutation)
 
 Boot == "boot"
 
 VARIABLES
   \* library volatile
   term, vote, role, lead, log, commit, stable, appliedLib, votes, match, outbox,
-  psnap,      \* index of a received snapshot the host has not installed yet (0 = none)
   \* host volatile
   phase, rd, leadFlag, sm,
   \* durable
   dTerm, dVote, dCommit, dLog,
-  dSnap,      \* index of the durable snapshot (0 = none); entries up to it are compacted
-  snapData,   \* its content: the state machine after applying entries 1..dSnap
   \* environment
-  up, net, crashes, proposed, snaps,
+  up, net, crashes, proposed,
   \* history
   appliedAt, leaders, bad
 
-lib == <<term, vote, role, lead, log, commit, stable, appliedLib, votes, match, outbox, psnap>>
+lib == <<term, vote, role, lead, log, commit, stable, appliedLib, votes, match, outbox>>
 host == <<phase, rd, leadFlag, sm>>
-dur == <<dTerm, dVote, dCommit, dLog, dSnap, snapData>>
-env == <<up, net, crashes, proposed, snaps>>
+dur == <<dTerm, dVote, dCommit, dLog>>
+env == <<up, net, crashes, proposed>>
 histv == <<appliedAt, leaders, bad>>
 vars == <<lib, host, dur, env, histv>>
 
@@ -67,13 +61,12 @@ Init ==
   /\ log = [n \in Node |-> <<[term |-> 1, val |-> Boot]>>]
   /\ commit = [n \in Node |-> 1] /\ stable = [n \in Node |-> 1] /\ appliedLib = [n \in Node |-> 1]
   /\ votes = [n \in Node |-> {}] /\ match = [n \in Node |-> [m \in Node |-> 0]]
-  /\ outbox = [n \in Node |-> {}] /\ psnap = [n \in Node |-> 0]
+  /\ outbox = [n \in Node |-> {}]
   /\ phase = [n \in Node |-> "idle"] /\ rd = [n \in Node |-> NoRd]
   /\ leadFlag = [n \in Node |-> FALSE] /\ sm = [n \in Node |-> <<Boot>>]
   /\ dTerm = [n \in Node |-> 1] /\ dVote = [n \in Node |-> None] /\ dCommit = [n \in Node |-> 1]
   /\ dLog = [n \in Node |-> <<[term |-> 1, val |-> Boot]>>]
-  /\ dSnap = [n \in Node |-> 0] /\ snapData = [n \in Node |-> <<>>]
-  /\ up = [n \in Node |-> TRUE] /\ net = {} /\ crashes = 0 /\ proposed = {} /\ snaps = 0
+  /\ up = [n \in Node |-> TRUE] /\ net = {} /\ crashes = 0 /\ proposed = {}
   /\ appliedAt = <<[term |-> 1, val |-> Boot]>> /\ leaders = {} /\ bad = {}
 
 Idle(n) == up[n] /\ phase[n] = "idle"
@@ -86,16 +79,11 @@ BecomeLeader(n) ==
   /\ match' = [match EXCEPT ![n] = [m \in Node |-> IF m = n THEN Len(log[n]) + 1 ELSE 0]]
   /\ leaders' = leaders \cup {<<term[n], n>>}
 
-AppMsg(n, m, L, c) ==  \* append entries carrying everything after match (simplified probe); if the
-                       \* follower needs entries this node has compacted, a snapshot message instead:
-                       \* modelled as an append from index 0 carrying the compacted prefix (Log Matching makes
-                       \* that equivalent for the log; the HOST treats it as a snapshot to save and install)
+AppMsg(n, m, L, c) ==  \* append entries carrying everything after match (simplified probe)
   LET prev == match[n][m]
-      useSnap == prev < dSnap[n]
-  IN [type |-> "app", from |-> n, to |-> m, term |-> term[n], prev |-> IF useSnap THEN 0 ELSE prev,
-      prevTerm |-> IF useSnap \/ prev = 0 THEN 0 ELSE L[prev].term,
-      ents |-> IF useSnap THEN SubSeq(L, 1, dSnap[n]) ELSE SubSeq(L, prev + 1, Len(L)),
-      commit |-> c, snap |-> useSnap]
+  IN [type |-> "app", from |-> n, to |-> m, term |-> term[n], prev |-> prev,
+      prevTerm |-> IF prev = 0 THEN 0 ELSE L[prev].term,
+      ents |-> SubSeq(L, prev + 1, Len(L)), commit |-> c]
 
 Timeout(n) ==
   /\ Idle(n) /\ role[n] # "L" /\ term[n] < MaxTerm
@@ -114,7 +102,7 @@ Timeout(n) ==
                 {[type |-> "vote", from |-> n, to |-> m, term |-> term[n] + 1,
                   lastIdx |-> Len(log[n]), lastTerm |-> LastTerm(log[n])] : m \in Node \ {n}}]
           /\ UNCHANGED <<log, match, commit, leaders>>
-  /\ UNCHANGED <<stable, appliedLib, psnap, host, dur, env, appliedAt, bad>>
+  /\ UNCHANGED <<stable, appliedLib, host, dur, env, appliedAt, bad>>
 
 StepDown(n, t) ==  \* helper: values after observing higher term t
   [tm |-> IF t > term[n] THEN t ELSE term[n],
@@ -187,9 +175,7 @@ Recv(n, m) ==
                  /\ role' = [role EXCEPT ![n] = s.rl] /\ lead' = [lead EXCEPT ![n] = s.ld]
                  /\ UNCHANGED <<log, commit, votes, match, leaders, outbox, bad>>
   /\ net' = net \ {m}
-  /\ psnap' = [psnap EXCEPT ![n] =
-                 IF m.type = "app" /\ m.snap /\ m.term >= term[n] /\ Len(m.ents) > Max(appliedLib[n], @) THEN Len(m.ents) ELSE @]
-  /\ UNCHANGED <<stable, appliedLib, host, dur, up, crashes, proposed, snaps, appliedAt>>
+  /\ UNCHANGED <<stable, appliedLib, host, dur, up, crashes, proposed, appliedAt>>
 
 Propose(n, v) ==
   /\ Idle(n) /\ role[n] = "L" /\ v \notin proposed /\ Len(log[n]) < MaxLog
@@ -199,22 +185,32 @@ Propose(n, v) ==
   /\ commit' = [commit EXCEPT ![n] = IF Cardinality(Node) = 1 THEN Len(log[n]) + 1 ELSE @]
   /\ outbox' = [outbox EXCEPT ![n] = @ \cup
         {AppMsg(n, p, Append(log[n], [term |-> term[n], val |-> v]), commit[n]) : p \in Node \ {n}}]
-  /\ UNCHANGED <<term, vote, role, lead, stable, appliedLib, votes, psnap, host, dur, up, net, crashes, snaps, histv>>
+  /\ UNCHANGED <<term, vote, role, lead, stable, appliedLib, votes, host, dur, up, net, crashes, histv>>
 
 LeaderBcast(n) ==   \* heartbeat-ish: resend append with current commit
   /\ Idle(n) /\ role[n] = "L" /\ outbox[n] = {}
   /\ \E p \in Node \ {n} :
         /\ (match[n][p] < Len(log[n]) \/ commit[n] > 1)
         /\ outbox' = [outbox EXCEPT ![n] = {AppMsg(n, p, log[n], commit[n])}]
-  /\ UNCHANGED <<term, vote, role, lead, log, commit, stable, appliedLib, votes, match, psnap, host, dur, env, histv>>
+  /\ UNCHANGED <<term, vote, role, lead, log, commit, stable, appliedLib, votes, match, host, dur, env, histv>>
 
 \* ---------------- host ready loop (storage/raft/group.go run()) ----------------
 HasUpdates(n) ==
   \/ outbox[n] # {} \/ stable[n] < Len(log[n]) \/ appliedLib[n] < commit[n]
   \/ <<term[n], vote[n], commit[n]>> # <<dTerm[n], dVote[n], dCommit[n]>>
-  \/ leadFlag[n] # (lead[n] = n) \/ psnap[n] > appliedLib[n]
+  \/ leadFlag[n] # (lead[n] = n)
 
-Vals(L, k) == [i \in 1..k |-> L[i].val]
+TakeReady(n) ==
+  /\ Idle(n) /\ HasUpdates(n)
+  /\ rd' = [rd EXCEPT ![n] = [hs |-> [term |-> term[n], vote |-> vote[n], commit |-> commit[n]],
+                              from |-> stable[n] + 1,
+                              ents |-> SubSeq(log[n], stable[n] + 1, Len(log[n])),
+                              cfrom |-> appliedLib[n] + 1, cto |-> commit[n],
+                              msgs |-> outbox[n]]]
+  /\ outbox' = [outbox EXCEPT ![n] = {}]
+  /\ leadFlag' = [leadFlag EXCEPT ![n] = (lead[n] = n)]
+  /\ phase' = [phase EXCEPT ![n] = "ready"]
+  /\ UNCHANGED <<term, vote, role, lead, log, commit, stable, appliedLib, votes, match, sm, dur, env, histv>>
 
 Attested(n, m) ==   \* durable state covers what the message promises
   CASE m.type = "voteResp" /\ m.granted -> dTerm[n] >= m.term /\ (dTerm[n] = m.term => dVote[n] = m.to)
@@ -222,10 +218,57 @@ Attested(n, m) ==   \* durable state covers what the message promises
     [] m.type = "appResp" /\ m.ok -> dTerm[n] >= m.term /\ (dTerm[n] = m.term => Len(dLog[n]) >= m.idx)
     [] OTHER -> TRUE
 
+SendBefore(n) ==
+  /\ up[n] /\ phase[n] = "ready"
+  /\ IF leadFlag[n] \/ SendPolicy = "allFirst"
+     THEN /\ net' = net \cup rd[n].msgs
+          /\ bad' = bad \cup {<<"unattested", m.type, n>> : m \in {x \in rd[n].msgs : ~Attested(n, x)}}
+          /\ rd' = [rd EXCEPT ![n].msgs = {}]
+     ELSE UNCHANGED <<net, bad, rd>>
+  /\ phase' = [phase EXCEPT ![n] = "sent1"]
+  /\ UNCHANGED <<lib, leadFlag, sm, dur, up, crashes, proposed, appliedAt, leaders>>
+
+Save(n) ==
+  /\ up[n] /\ phase[n] = "sent1"
+  /\ dTerm' = [dTerm EXCEPT ![n] = rd[n].hs.term]
+  /\ dVote' = [dVote EXCEPT ![n] = rd[n].hs.vote]
+  /\ dCommit' = [dCommit EXCEPT ![n] = rd[n].hs.commit]
+  /\ dLog' = [dLog EXCEPT ![n] = IF Len(rd[n].ents) = 0 THEN @
+                                 ELSE SubSeq(@, 1, rd[n].from - 1) \o rd[n].ents]
+  /\ phase' = [phase EXCEPT ![n] = "saved"]
+  /\ UNCHANGED <<lib, rd, leadFlag, sm, env, histv>>
+
 RECURSIVE ApplyAll(_, _, _, _)
 ApplyAll(A, n, i, to) ==   \* record applied entries in the global history
   IF i > to THEN A
   ELSE ApplyAll(IF i <= Len(A) THEN A ELSE Append(A, log[n][i]), n, i + 1, to)
+
+Apply(n) ==
+  /\ up[n] /\ phase[n] = "saved"
+  /\ LET f == rd[n].cfrom  t == rd[n].cto IN
+     /\ sm' = [sm EXCEPT ![n] = SubSeq(@, 1, f - 1) \o [i \in 1..(t - f + 1) |-> log[n][f + i - 1].val]]
+     /\ bad' = bad
+          \cup {<<"apply-mismatch", n, i>> : i \in {j \in f..t : j <= Len(appliedAt) /\ appliedAt[j] # log[n][j]}}
+          \cup (IF f > Len(appliedAt) + 1 /\ f <= t THEN {<<"apply-gap", n>>} ELSE {})
+          \cup {<<"apply-not-durable", n, i>> : i \in {j \in f..t : j > Len(dLog[n]) \/ dLog[n][j] # log[n][j]}}
+     /\ appliedAt' = ApplyAll(appliedAt, n, f, t)
+  /\ phase' = [phase EXCEPT ![n] = "applied"]
+  /\ UNCHANGED <<lib, rd, leadFlag, dur, env, leaders>>
+
+SendAfter(n) ==
+  /\ up[n] /\ phase[n] = "applied"
+  /\ net' = net \cup rd[n].msgs
+  /\ bad' = bad \cup {<<"unattested", m.type, n>> : m \in {x \in rd[n].msgs : ~Attested(n, x)}}
+  /\ phase' = [phase EXCEPT ![n] = "sent2"]
+  /\ UNCHANGED <<lib, rd, leadFlag, sm, dur, up, crashes, proposed, appliedAt, leaders>>
+
+Advance(n) ==
+  /\ up[n] /\ phase[n] = "sent2"
+  /\ stable' = [stable EXCEPT ![n] = IF Len(rd[n].ents) = 0 THEN @ ELSE Max(@, Min(Len(log[n]), rd[n].from + Len(rd[n].ents) - 1))]
+  /\ appliedLib' = [appliedLib EXCEPT ![n] = Max(@, rd[n].hs.commit)]
+  /\ phase' = [phase EXCEPT ![n] = "idle"]
+  /\ rd' = [rd EXCEPT ![n] = NoRd]
+  /\ UNCHANGED <<term, vote, role, lead, log, commit, votes, match, outbox, leadFlag, sm, dur, env, histv>>
 
 \* ---------------- crash / restart ----------------
 Crash(n) ==
@@ -236,34 +279,23 @@ Crash(n) ==
   /\ outbox' = [outbox EXCEPT ![n] = {}] /\ leadFlag' = [leadFlag EXCEPT ![n] = FALSE]
   /\ role' = [role EXCEPT ![n] = "F"] /\ lead' = [lead EXCEPT ![n] = None]
   /\ votes' = [votes EXCEPT ![n] = {}] /\ sm' = [sm EXCEPT ![n] = <<>>]
-  /\ psnap' = [psnap EXCEPT ![n] = 0]
-  /\ UNCHANGED <<term, vote, log, commit, stable, appliedLib, match, dur, net, proposed, snaps, histv>>
+  /\ UNCHANGED <<term, vote, log, commit, stable, appliedLib, match, dur, net, proposed, histv>>
 
 Restart(n) ==
   /\ ~up[n]
   /\ up' = [up EXCEPT ![n] = TRUE]
   /\ IF RestartMode = "restart"
      THEN /\ term' = [term EXCEPT ![n] = dTerm[n]] /\ vote' = [vote EXCEPT ![n] = dVote[n]]
-          /\ log' = [log EXCEPT ![n] = dLog[n]] /\ commit' = [commit EXCEPT ![n] = Max(dCommit[n], dSnap[n])]
+          /\ log' = [log EXCEPT ![n] = dLog[n]] /\ commit' = [commit EXCEPT ![n] = dCommit[n]]
      ELSE /\ term' = [term EXCEPT ![n] = 1] /\ vote' = [vote EXCEPT ![n] = None]
           /\ log' = [log EXCEPT ![n] = Append(dLog[n], [term |-> 1, val |-> Boot])]
           /\ commit' = [commit EXCEPT ![n] = Len(dLog[n]) + 1]
   /\ stable' = [stable EXCEPT ![n] = Len(dLog[n])]
-  \* RaftGroup.Start(): the stored snapshot is loaded into the state machine; raft resumes applying after it
-  /\ appliedLib' = [appliedLib EXCEPT ![n] = dSnap[n]]
-  /\ sm' = [sm EXCEPT ![n] = snapData[n]]
+  /\ appliedLib' = [appliedLib EXCEPT ![n] = 0]
   /\ match' = [match EXCEPT ![n] = [m \in Node |-> 0]]
-  /\ UNCHANGED <<role, lead, votes, outbox, psnap, phase, rd, leadFlag, dur, net, crashes, proposed, snaps, histv>>
+  /\ UNCHANGED <<role, lead, votes, outbox, host, dur, net, crashes, proposed, histv>>
 
-\* trySnapshot: local snapshot of the state machine at the last applied index + compaction of the log
-Compact(n) ==
-  /\ Idle(n) /\ ~HasUpdates(n) /\ snaps < MaxSnap /\ appliedLib[n] > dSnap[n]
-  /\ snaps' = snaps + 1
-  /\ dSnap' = [dSnap EXCEPT ![n] = IF SnapLabel = "exact" THEN appliedLib[n] ELSE Min(appliedLib[n] + 1, Len(dLog[n]))]
-  /\ snapData' = [snapData EXCEPT ![n] = sm[n]]
-  /\ UNCHANGED <<lib, host, dTerm, dVote, dCommit, dLog, up, net, crashes, proposed, histv>>
-
-Drop(m) == m \in net /\ net' = net \ {m} /\ UNCHANGED <<lib, host, dur, up, crashes, proposed, snaps, histv>>
+Drop(m) == m \in net /\ net' = net \ {m} /\ UNCHANGED <<lib, host, dur, up, crashes, proposed, histv>>
 
 
 \* ---------------- atomic host cycle with optional crash point (reduction) ----------------
@@ -287,20 +319,12 @@ Cycle(n, cp) ==
          dV == IF k >= 2 THEN R.hs.vote ELSE dVote[n]
          dC == IF k >= 2 THEN R.hs.commit ELSE dCommit[n]
          dL == IF k >= 2 /\ Len(R.ents) > 0 THEN SubSeq(dLog[n], 1, R.from - 1) \o R.ents ELSE dLog[n]
-         \* a received snapshot (rd.Snapshot): saved with the rest (phase 2), installed into the state machine
-         \* first thing in phase 3; the committed entries of this Ready start after it
-         sn == IF psnap[n] > appliedLib[n] THEN psnap[n] ELSE 0
-         dS == IF k >= 2 /\ sn > 0 THEN sn ELSE dSnap[n]
-         dD == IF k >= 2 /\ sn > 0 THEN Vals(log[n], sn) ELSE snapData[n]
          \* phase 3: apply
-         f == IF sn > 0 THEN sn + 1 ELSE R.cfrom
-         t == R.cto
-         smBase == IF sn > 0 THEN Vals(log[n], sn) ELSE SubSeq(sm[n], 1, f - 1)
-         sm3 == IF k >= 3 THEN smBase \o [i \in 1..(t - f + 1) |-> log[n][f + i - 1].val] ELSE sm[n]
+         f == R.cfrom  t == R.cto
+         sm3 == IF k >= 3 THEN SubSeq(sm[n], 1, f - 1) \o [i \in 1..(t - f + 1) |-> log[n][f + i - 1].val] ELSE sm[n]
          bad3 == IF k >= 3 THEN bad1
                    \cup {<<"apply-mismatch", n, i>> : i \in {j \in f..t : j <= Len(appliedAt) /\ appliedAt[j] # log[n][j]}}
                    \cup (IF f > Len(appliedAt) + 1 /\ f <= t THEN {<<"apply-gap", n>>} ELSE {})
-                   \cup (IF sn > 0 /\ (sn > Len(appliedAt) \/ Vals(log[n], sn) # Vals(appliedAt, Min(sn, Len(appliedAt)))) THEN {<<"snapshot-not-a-prefix", n>>} ELSE {})
                    \cup {<<"apply-not-durable", n, i>> : i \in {j \in f..t : j > Len(dL) \/ dL[j] # log[n][j]}}
                  ELSE bad1
          aa3 == IF k >= 3 THEN ApplyAll(appliedAt, n, f, t) ELSE appliedAt
@@ -317,28 +341,25 @@ Cycle(n, cp) ==
      IN /\ net' = net4 /\ bad' = bad4 /\ appliedAt' = aa3
         /\ dTerm' = [dTerm EXCEPT ![n] = dT] /\ dVote' = [dVote EXCEPT ![n] = dV]
         /\ dCommit' = [dCommit EXCEPT ![n] = dC] /\ dLog' = [dLog EXCEPT ![n] = dL]
-        /\ dSnap' = [dSnap EXCEPT ![n] = dS] /\ snapData' = [snapData EXCEPT ![n] = dD]
         /\ IF cp = "none"
            THEN /\ sm' = [sm EXCEPT ![n] = sm3]
                 /\ stable' = [stable EXCEPT ![n] = Len(log[n])]
                 /\ appliedLib' = [appliedLib EXCEPT ![n] = Max(@, R.hs.commit)]
                 /\ outbox' = [outbox EXCEPT ![n] = {}]
                 /\ leadFlag' = [leadFlag EXCEPT ![n] = lf]
-                /\ psnap' = [psnap EXCEPT ![n] = 0]
                 /\ UNCHANGED <<up, crashes, role, lead, votes>>
            ELSE /\ sm' = [sm EXCEPT ![n] = <<>>]
                 /\ up' = [up EXCEPT ![n] = FALSE] /\ crashes' = crashes + 1
                 /\ outbox' = [outbox EXCEPT ![n] = {}] /\ leadFlag' = [leadFlag EXCEPT ![n] = FALSE]
                 /\ role' = [role EXCEPT ![n] = "F"] /\ lead' = [lead EXCEPT ![n] = None]
                 /\ votes' = [votes EXCEPT ![n] = {}]
-                /\ psnap' = [psnap EXCEPT ![n] = 0]
                 /\ UNCHANGED <<stable, appliedLib>>
-  /\ UNCHANGED <<term, vote, log, commit, match, phase, rd, proposed, snaps, leaders>>
+  /\ UNCHANGED <<term, vote, log, commit, match, phase, rd, proposed, leaders>>
 
 CrashIdle(n) == Idle(n) /\ ~HasUpdates(n) /\ Crash(n)
 
 NextR ==
-  \/ \E n \in Node : Timeout(n) \/ Restart(n) \/ LeaderBcast(n) \/ CrashIdle(n) \/ Compact(n)
+  \/ \E n \in Node : Timeout(n) \/ Restart(n) \/ LeaderBcast(n) \/ CrashIdle(n)
   \/ \E n \in Node, cp \in CrashPts : Cycle(n, cp)
   \/ \E n \in Node, m \in net : Recv(n, m)
   \/ \E n \in Node, v \in Values : Propose(n, v)
@@ -346,13 +367,17 @@ NextR ==
 SpecR == Init /\ [][NextR]_vars
 Sym == Permutations(Node)
 
+Next ==
+  \/ \E n \in Node : Timeout(n) \/ TakeReady(n) \/ SendBefore(n) \/ Save(n) \/ Apply(n) \/ SendAfter(n) \/ Advance(n)
+                     \/ Crash(n) \/ Restart(n) \/ LeaderBcast(n)
+  \/ \E n \in Node, m \in net : Recv(n, m)
+  \/ \E n \in Node, v \in Values : Propose(n, v)
+  \/ \E m \in net : Drop(m)
+
+Spec == Init /\ [][Next]_vars
+
 NetBound == Cardinality(net) <= MaxNet
 NoBad == bad = {}
 ElectionSafety == \A a, b \in leaders : a[1] = b[1] => a[2] = b[2]
 TermNotBelowDurable == \A n \in Node : up[n] => term[n] >= dTerm[n]
-\* C03: a durable snapshot labelled i holds exactly the effects of the applied entries 1..i, and a running
-\* state machine holds exactly the effects of a prefix of what was applied anywhere
-SnapshotExact == \A n \in Node : dSnap[n] > 0 => (dSnap[n] <= Len(appliedAt) /\ snapData[n] = Vals(appliedAt, dSnap[n]))
-SmIsPrefix == \A n \in Node : (up[n] /\ Len(sm[n]) <= Len(appliedAt)) => sm[n] = Vals(appliedAt, Len(sm[n]))
-SmMatchesApplied == \A n \in Node : Idle(n) => Len(sm[n]) = appliedLib[n]
 =============================================================================
